@@ -128,7 +128,20 @@ Proof.
   - eexists. split; [reflexivity|]. apply (AssertDispatch.ew_fxp_int w W0).
   - eexists. split; [reflexivity|]. apply AssertDispatch.ew_fxp_lc.
 Qed.
+(* the unary assertions of the three classes act on the receiver's wire *)
+Theorem C03_class_assert_zero : forall recv x r s' cs, AssertDispatch.unary_wire recv = Some x ->
+  run (Prog.gen_meth c Prog.MAssertZero recv []) s = (inl r, s', cs) -> sat cs -> feq p (ew x) 0.
+Proof. intros recv x r s' cs. eapply AssertDispatch.meth_assert_zero_forced; eassumption. Qed.
+Theorem C03_class_assert_nonzero : forall recv x r s' cs, AssertDispatch.unary_wire recv = Some x ->
+  run (Prog.gen_meth c Prog.MAssertNonzero recv []) s = (inl r, s', cs) -> sat cs -> ~ feq p (ew x) 0.
+Proof. intros recv x r s' cs. eapply AssertDispatch.meth_assert_nonzero_forced; eassumption. Qed.
+Theorem C03_class_assert_positive : forall recv x r s' cs, AssertDispatch.unary_wire recv = Some x ->
+  run (Prog.gen_meth c (Prog.MAssertPositive None) recv []) s = (inl r, s', cs) -> sat cs -> exists v, 0 <= v < 2 ^ Z.of_nat (nbits c) /\ feq p (ew x) v.
+Proof. intros recv x r s' cs. eapply AssertDispatch.meth_assert_positive_forced; eassumption. Qed.
 End C03_dispatch.
+Print Assumptions C03_class_assert_zero.
+Print Assumptions C03_class_assert_nonzero.
+Print Assumptions C03_class_assert_positive.
 Print Assumptions C03_class_assertions_force_the_relation.
 (* non-vacuity: LinCombFxp.assert_lt(3) on a secret fixed-point number runs in the model and emits constraints *)
 Example C03_dispatch_example :
